@@ -25,6 +25,7 @@ import Drivers.Kexact
 import Drivers.SmoothInterp
 import Drivers.Rcb
 import Drivers.Ugrid
+import Drivers.InterpLocate
 
 /-! `refdrv <driver> [args]` : dispatch to a line-protocol driver. One match arm per driver, on one line. -/
 
@@ -55,6 +56,7 @@ def main (args : List String) : IO UInt32 := do
   | "smoothinterp" :: rest => Drivers.SmoothInterp.run rest
   | "rcb" :: rest => Drivers.Rcb.run rest
   | "ugrid" :: rest => Drivers.Ugrid.run rest
+  | "interplocate" :: rest => Drivers.InterpLocate.run rest
   | _ =>
     IO.eprintln s!"refdrv: unknown driver {args}"
     return 2
